@@ -8,6 +8,7 @@ import QR.Proofs.SourceTieC05
 import QR.Proofs.Pinned
 import QR.Proofs.SourceTieC05b
 import QR.Proofs.SourceTieB2
+import QR.Proofs.SourceTieT1
 /-
 C05 - function patterns, geometry and data placement of every symbol.
 Finite part: alignment table = Annex E closed form, mask functions = ISO Table 10.
@@ -260,6 +261,31 @@ theorem C05_source_makeImpl_src (version level : Nat) (test : Bool) (mask : Nat)
   QR.SourceTieB.makeImpl_src version level test mask data
 
 end SourceTieT2
+
+
+/-! ### Source tie, part 2 (T2 plugins `tools/t2_fragments/`): (second plugin round, `frag_c.py`) the hand-written Model equals the definitions translated from
+    /repo's current Python AST (`QR.Gen.Code`, regenerated on every run). Restated verbatim from `QR/Proofs/SourceTie*.lean`. -/
+section SourceTieT2b
+open QR.Model QR.Gen QR.Gen.Code QR.SourceTieT
+
+/-- **map_data**: for every odd module count `n` (Python: `modules_count = 4 * version + 17`), every matrix, codeword list and
+    mask pattern, and every fuel `≥ n` for the `while True` loops: the loop skeleton instantiated with the translated
+    fragments terminates (every `while True` reaches its `break`) and leaves exactly the matrix `Model.mapData` computes. -/
+theorem C05_source_mapData_src (n : Nat) (hodd : n % 2 = 1) (m : Mat) (data : List Nat) (mask fuel : Nat) (hf : n ≤ fuel) :
+    srcMapData n (maskFunc mask) data fuel m = some (mapData n m data mask) :=
+  QR.SourceTieT.mapData_src n hodd m data mask fuel hf
+
+/-- the instance Python uses: `modules_count = version * 4 + 17` -/
+theorem C05_source_mapData_src_version (version : Nat) (m : Mat) (data : List Nat) (mask : Nat) :
+    srcMapData (version * 4 + 17) (maskFunc mask) data (version * 4 + 17) m = some (mapData (version * 4 + 17) m data mask) :=
+  QR.SourceTieT.mapData_src_version version m data mask
+
+/-- the coordinates the cell test / the write / the mask call use are the loop variables themselves (no offset) -/
+theorem C05_source_map_cells_src (n dataLen col c inc row bi by_ : Int) :
+    map_cell_test n dataLen col c inc row bi by_ = (row, c) ∧ map_cell_write n dataLen col c inc row bi by_ = (row, c) :=
+  QR.SourceTieT.map_cells_src n dataLen col c inc row bi by_
+
+end SourceTieT2b
 
 /-- the Python functions this property's model mirrors have, in /repo's current working tree, exactly the normalised
     ASTs the model was written and validated against (fingerprints regenerated by T1 on every run) -/
